@@ -133,6 +133,7 @@ type Op struct {
 	Q     *Query      `json:"q,omitempty"`
 	Ms    int         `json:"ms,omitempty"`
 	Cfg   *Config     `json:"cfg,omitempty"`
+	Sub   []Op        `json:"sub,omitempty"`
 	// free-form per-property payload
 	Aux map[string]interface{} `json:"aux,omitempty"`
 }
